@@ -22,9 +22,27 @@ _CAT = {
 
 
 def set_concrete(items, c, icase=False):
-    if icase:
-        return _set1(items, c) or _set1(items, c.lower()) or _set1(items, c.upper())
-    return _set1(items, c)
+    """membership of one concrete character.  Under IGNORECASE CPython's sre tests the LOWER-cased character against a set whose
+    literals and ranges were extended with their case variants at compile time; category items (\\w, \\s, \\d) see the lower-cased
+    character only (so U+0345, whose upper case is a Greek capital iota, is not \\w)."""
+    if not icase:
+        return _set1(items, c)
+    lc = c.lower()[:1] or c          # sre uses the simple (one-to-one) lower-case mapping
+    neg = any(op is C.NEGATE for op, _av in items)
+    plain = [(op, av) for op, av in items if op in (C.LITERAL, C.RANGE)]
+    cats = [(op, av) for op, av in items if op is C.CATEGORY]
+    try:
+        from re._casefix import _EXTRA_CASES as extra      # characters sre treats as case variants beyond lower()/upper()
+    except ImportError:
+        extra = {}
+    low = {lc} | {chr(x) for x in extra.get(ord(lc), ())}
+    variants = set(low)
+    for v in list(low) + [c]:
+        if len(v.upper()) == 1 and (v.upper().lower()[:1] or v.upper()) in low:
+            variants.add(v.upper())
+    r = any(_set1(plain, v) for v in variants) if plain else False
+    r = r or (bool(cats) and _set1(cats, lc))
+    return r != neg
 
 
 def _set1(items, c):
